@@ -2,7 +2,7 @@
    Statements only; proofs in Proofs/C13_*.v.  Model: Model/Relax.v (do_relaxations, _apply_relaxation_holes)
    on top of Model/Reloc.v (can_shrink, do_shrink, apply); Spec: Spec/RelocSpec.v (jal / c.j / c.jal). *)
 From PV Require Import Lib.Py Spec.RelocSpec Gen.bitfun Model.Reloc Model.Relax
-  Proofs.C11_final Proofs.C13_relax Proofs.C13_final.
+  Proofs.C11_final Proofs.C13_relax Proofs.C13_final Proofs.C13_compose.
 Open Scope Z_scope.
 
 (* byte deletion (reverse order, as the code does it) realises new_off o = o - (sizes of the holes that start
@@ -77,6 +77,42 @@ Theorem c13_alignment_refuted :
     exists s, In s secs' /\ s_addr s mod 4 <> 0.
 Proof. exact alignment_refuted. Qed.
 Print Assumptions c13_alignment_refuted.
+
+(* ---- end-to-end composition, per jump site (restated from "for every object": the fold over all relocations of
+   an arbitrary object is validated by correspondence; this is the composition of byte patching, hole punching,
+   offset shifting and relocation for ONE site, for arbitrary holes of its section).
+   The hypothesis [fits_signed ..] on the post-relaxation distance is explicit: it is exactly what fails when a
+   jump into another memory image gets farther (known finding cross_image_distance_grows). *)
+Theorem c13_relax_link_site_shrunk : forall k A S P old4 d2 holes data d' b addr' S',
+  is_relaxable k -> bytes_ok 4 old4 -> S mod 2 = 0 -> P mod 2 = 0 ->
+  do_shrink k S P old4 = Ok (d2, RvcBcImm11) ->
+  sliceZ data b (b + 2) = d2 ->
+  holes_ok 0 holes -> holes_pos holes -> holes_end 0 holes <= len data ->
+  0 <= b -> b + 2 <= len data -> (forall o, b <= o < b + 2 -> ~ in_hole o holes) ->
+  punch data holes = Ok d' ->
+  let b' := new_off holes b in
+  let P' := addr' + b' in
+  S' mod 2 = 0 -> P' mod 2 = 0 ->
+  fits_signed 12 (S' - P') ->
+  exists d3, apply RvcBcImm11 A S' (sliceZ d' b' (b' + 2)) P' = Ok d3 /\ bytes_ok 2 d3 /\
+    rvc_j_target (le_word d3) P' = S' /\
+    (if rkind_beq k RvcCBImm11 then is_cj (le_word d3) else is_cjal (le_word d3)) = true.
+Proof. exact relax_link_site_shrunk. Qed.
+Print Assumptions c13_relax_link_site_shrunk.
+
+Theorem c13_relax_link_site_kept : forall k A holes data d' b addr' S',
+  is_jtype k -> bytes_ok 4 (sliceZ data b (b + 4)) ->
+  holes_ok 0 holes -> holes_pos holes -> holes_end 0 holes <= len data ->
+  0 <= b -> b + 4 <= len data -> (forall o, b <= o < b + 4 -> ~ in_hole o holes) ->
+  punch data holes = Ok d' ->
+  let b' := new_off holes b in
+  let P' := addr' + b' in
+  S' mod 2 = 0 -> P' mod 2 = 0 -> fits_signed 21 (S' - P') ->
+  exists d3, apply k A S' (sliceZ d' b' (b' + 4)) P' = Ok d3 /\ bytes_ok 4 d3 /\
+    rv_jal_target (le_word d3) P' = S' /\
+    bits (le_word d3) 0 12 = bits (le_word (sliceZ data b (b + 4))) 0 12.
+Proof. exact relax_link_site_kept. Qed.
+Print Assumptions c13_relax_link_site_kept.
 
 Example c13_nonvacuous :
   holes_ok 0 [(2, 2); (10, 2)] /\ punch [1; 2; 3; 4; 5; 6; 7; 8; 9; 10; 11; 12] [(2, 2); (10, 2)] = Ok [1; 2; 5; 6; 7; 8; 9; 10] /\
